@@ -189,6 +189,16 @@ fn c09_cell(rep: &mut Report, recv: Operand, name: &str, args: &[Operand], via_s
 
 pub fn c09(ctx: &Ctx, rep: &mut Report) {
     if let Some(r) = &ctx.replay {
+        if let (Some(src), Some(want)) = (r.get("bulk_src").and_then(|s| s.as_str()), r.get("want").and_then(|s| s.as_str())) {
+            rep.evaluations += 1;
+            let p = real::pipeline_from_source(src, 100_000);
+            rep.conclusive += 1;
+            let good = matches!((&p.stage_error, &p.run), (None, Some(r)) if r.ok && r.out == want);
+            if !good {
+                rep.violation("C09:bulk", format!("bulk program does not print the expected lines [{} build]", if cfg!(debug_assertions) { "debug" } else { "release" }), r.clone());
+            }
+            return;
+        }
         if let Some(src) = r.get("src").and_then(|s| s.as_str()) {
             // replay re-evaluates the printed expression against the table
             if let Ok(AST::Top(ss)) = real::parse(src) {
@@ -274,7 +284,16 @@ pub fn c09(ctx: &Ctx, rep: &mut Report) {
     for i in 0..n {
         let mut rng = ctx.rng("C09", i);
         let a = if rng.coin() { rng.i32_any() } else { rng.i32_interesting() };
-        let b = match rng.below(10) {
+        let b = match rng.below(14) {
+            // relations rather than magnitudes: same bits with the sign flipped, complement, halves
+            // swapped, exact multiples and divisors, operands whose difference or sum is MIN/MAX
+            10 => a ^ i32::MIN,
+            11 => [!a, a.rotate_left(16), a >> 16, a << 16, a >> 1, a.wrapping_mul(2), a.wrapping_abs()][rng.below(7)],
+            12 => {
+                let d = [2, 3, 5, 7, 16, 641, 65536, -2, -3, -65536][rng.below(10)];
+                if rng.coin() { a / d } else { a.wrapping_mul(d) }
+            }
+            13 => [i32::MIN.wrapping_sub(a), i32::MAX.wrapping_sub(a), a.wrapping_sub(i32::MIN), a.wrapping_sub(i32::MAX), i32::MIN.wrapping_add(a)][rng.below(5)],
             0 | 1 => rng.i32_any(),
             2 => rng.i32_interesting(),
             3 => rng.range(-3, 3) as i32,
@@ -288,6 +307,89 @@ pub fn c09(ctx: &Ctx, rep: &mut Report) {
         };
         let op = int_ops[rng.below(int_ops.len())];
         c09_cell(rep, Operand::Int(a), op, &[Operand::Int(b)], i % 7 == 0);
+    }
+    // bulk programs: 24 cells with defined results per program, operands held in variables, fields
+    // and elements as well as literals (the table above always uses literals); the expected line
+    // comes from the same i64 table
+    let nb = ctx.share(400_000, 20_000_000);
+    for i in 0..nb {
+        if i % 256 == 0 && ctx.out_of_time() && i > nb / 10 {
+            rep.notes.push(format!("time budget reached after {} of {} bulk programs", i, nb));
+            break;
+        }
+        let mut rng = ctx.rng("C09bulk", i);
+        let mut stmts = vec![
+            AST::variable(idn("va"), AST::Integer(0)),
+            AST::variable(idn("ob"), AST::object(AST::Null, vec![AST::variable(idn("f"), AST::Integer(0))])),
+            AST::variable(idn("ar"), AST::array(AST::Integer(2), AST::Integer(0))),
+        ];
+        let mut want = String::new();
+        let mut cells = 0;
+        while cells < 24 {
+            let a = if rng.coin() { rng.i32_any() } else { rng.i32_interesting() };
+            let b = match rng.below(8) {
+                0 => rng.i32_any(),
+                1 => rng.i32_interesting(),
+                2 => a.wrapping_add(rng.range(-2, 2) as i32),
+                3 => a ^ i32::MIN,
+                4 => a.wrapping_neg(),
+                5 => (1i32 << rng.below(31)) * if rng.coin() { 1 } else { -1 },
+                6 => i32::MIN.wrapping_sub(a),
+                _ => rng.range(-9, 9) as i32,
+            };
+            let op = int_ops[rng.below(int_ops.len())];
+            let exp = match expected(Operand::Int(a), op, &[Operand::Int(b)]) {
+                Some(Ok(s)) => s,
+                _ => continue,
+            };
+            cells += 1;
+            // where the operands live
+            let hold = |stmts: &mut Vec<AST>, v: i32, how: usize| -> AST {
+                match how {
+                    0 => {
+                        stmts.push(AST::assign_variable(idn("va"), AST::Integer(v)));
+                        AST::access_variable(idn("va"))
+                    }
+                    1 => {
+                        stmts.push(AST::assign_field(AST::access_variable(idn("ob")), idn("f"), AST::Integer(v)));
+                        AST::access_field(AST::access_variable(idn("ob")), idn("f"))
+                    }
+                    2 => {
+                        stmts.push(AST::assign_array(AST::access_variable(idn("ar")), AST::Integer(1), AST::Integer(v)));
+                        AST::access_array(AST::access_variable(idn("ar")), AST::Integer(1))
+                    }
+                    _ => AST::Integer(v),
+                }
+            };
+            let (ha, hb) = (rng.below(5), rng.below(5));
+            let ea = hold(&mut stmts, a, ha);
+            // both operands from the same holder would alias: the second one falls back to a literal
+            let eb = if hb == ha && hb < 3 { AST::Integer(b) } else { hold(&mut stmts, b, hb) };
+            stmts.push(AST::print("~\\n".into(), vec![AST::call_method(ea, idn(op), vec![eb])]));
+            want.push_str(&exp);
+            want.push('\n');
+        }
+        let ast = AST::top(stmts);
+        rep.evaluations += 1;
+        let p = real::pipeline_from_ast(&ast, 100_000, i % 16 == 0);
+        match (&p.stage_error, &p.run) {
+            (None, Some(r)) if !r.capped => {
+                rep.conclusive += 1;
+                rep.count("bulk_cells", 24);
+                rep.nontrivial(hash_str(&want));
+                if !r.ok || r.out != want {
+                    // name the first differing line
+                    let line = r.out.lines().zip(want.lines()).position(|(x, y)| x != y).unwrap_or(r.out.lines().count().min(want.lines().count()));
+                    rep.violation(
+                        "C09:bulk",
+                        format!("24 arithmetic/comparison cells over variables, fields and elements: line {} differs or the run failed (ok={} err={:?}); expected {:?}, observed {:?} [{} build]", line, r.ok, r.err, want.lines().nth(line), r.out.lines().nth(line), if cfg!(debug_assertions) { "debug" } else { "release" }),
+                        json!({"check":"C09","bulk_src": printer::to_source(&ast).unwrap_or_default(), "want": want, "builds": ["release", "debug"]}),
+                    );
+                }
+            }
+            (Some((st, e)), _) => rep.violation("C09:bulk-stage", format!("bulk program rejected at {}: {}", st, e), json!({"check":"C09","bulk_src": printer::to_source(&ast).unwrap_or_default(), "want": want})),
+            _ => rep.skip("bulk program hit the step cap"),
+        }
     }
     rep.sample(json!({"cell": "print(\"~\", 2147483647 + 1)", "expected": "-2147483648"}));
     rep.sample(json!({"cell": "print(\"~\", -7 % 3)", "expected": "-1"}));
@@ -461,9 +563,9 @@ pub fn c15(ctx: &Ctx, rep: &mut Report) {
         }
         return;
     }
-    let max_all = if ctx.quick() { 4 } else { 5 };
+    let max_all = if ctx.quick() { 4 } else { 6 };
     let mut k = 0u64;
-    for len in 0..=5usize {
+    for len in 0..=6usize {
         let total = 7u64.pow(len as u32);
         for i in 0..total {
             k += 1;
@@ -481,7 +583,7 @@ pub fn c15(ctx: &Ctx, rep: &mut Report) {
     rep.count("format_strings_upto_len", max_all as u64);
     // random formats over a wide Unicode alphabet: every character other than ~ and the six escapes
     // is copied unchanged
-    let nu = ctx.share(60_000, 2_000_000);
+    let nu = ctx.share(200_000, 4_000_000);
     let cli_every = (nu / if ctx.quick() { 25 } else { 400 }).max(1);
     let cli_dir = ctx.scratch("c15");
     for i in 0..nu {
@@ -547,7 +649,7 @@ pub fn c15(ctx: &Ctx, rep: &mut Report) {
         }
     }
     // rendering of nested values
-    let n = ctx.share(60_000, 2_000_000);
+    let n = ctx.share(150_000, 3_000_000);
     for i in 0..n {
         if i % 256 == 0 && ctx.out_of_time() && i > n / 10 {
             break;
@@ -576,6 +678,52 @@ pub fn c15(ctx: &Ctx, rep: &mut Report) {
             if rep.samples.len() < 3 && j.judged && src.len() < 700 && i % 5 >= 2 {
                 rep.sample(json!({"src": src, "expected_stdout": j.outcome.out}));
             }
+        }
+    }
+    // formats and values together: escapes, text and up to 12 placeholders around arguments of every
+    // kind (a placeholder directly after an escape, at the start or end, two in a row …), sometimes
+    // with one argument too many or too few
+    let n = ctx.share(100_000, 3_000_000);
+    for i in 0..n {
+        if i % 256 == 0 && ctx.out_of_time() && i > n / 10 {
+            break;
+        }
+        let mut rng = ctx.rng("C15m", i);
+        let pieces = rng.below(if i % 9 == 0 { 26 } else { 9 });
+        let mut fmt = String::new();
+        let mut ph = 0usize;
+        for _ in 0..pieces {
+            match rng.below(8) {
+                0 | 1 | 2 => {
+                    if ph < 12 {
+                        fmt.push('~');
+                        ph += 1;
+                    }
+                }
+                3 => fmt.push_str(["\\n", "\\t", "\\r", "\\\\", "\\\"", "\\~"][rng.below(6)]),
+                4 => fmt.push(['é', '中', '😀', '\u{301}', '%', '{', '}', ' '][rng.below(8)]),
+                5 => fmt.push_str(["null", "object(", "[", "]", ", ", "..=", "=", "-"][rng.below(8)]),
+                _ => fmt.push(char::from_u32(0x61 + rng.below(26) as u32).unwrap_or('x')),
+            }
+        }
+        let nargs = match rng.below(12) {
+            0 => ph + 1,
+            1 if ph > 0 => ph - 1,
+            _ => ph,
+        };
+        let args: Vec<AST> = (0..nargs)
+            .map(|_| match rng.below(7) {
+                0 => AST::Integer([0, -1, i32::MIN, i32::MAX, 10, -2147483647, 1000000000][rng.below(7)]),
+                1 => AST::Null,
+                2 => AST::Boolean(rng.chance(1, 2)),
+                _ => value_expr(&mut rng, 1 + (i % 4) as u32),
+            })
+            .collect();
+        let ast = AST::top(vec![AST::print("<\\n".into(), vec![]), AST::print("[~]\\n".into(), vec![AST::print(fmt, args)]), AST::print(">\\n".into(), vec![])]);
+        if let Ok(src) = printer::to_source(&ast) {
+            let _ = judge(rep, "C15", &format!("mixed#{}", i), &ast, &src, &mut rng, JudgeOpts::fast());
+            rep.bump("c15-mixed-formats", if nargs == ph { "matching" } else { "mismatching" });
+            rep.bump("c15-mixed-placeholders", &ph.to_string());
         }
     }
     rep.sample(json!({"format": "a~\\n~", "nargs": 2, "expected": "a10\n11"}));
